@@ -285,6 +285,24 @@ def run(ctx: Ctx) -> int:
         scns += scenarios_from_payloads(res.payloads, has_s, ctx.seed, all_kinds=False)
     rep.exhaustive = True
     # ---- spec -> code -----------------------------------------------------------------------
+    # binding self-test: tampered predictions must be reported
+    import copy
+
+    n_t = 0
+    for s in [x for x in scns if x["kinds"] == ["ok"] and x["values"]][:10]:
+        t = copy.deepcopy(s)
+        k = sorted(t["values"])[0]
+        t["values"][k] += 1
+        n_t += 1
+        if _work(t) is None:
+            raise MachineryError("binding self-test failed: a tampered value was not reported")
+    for s in [x for x in scns if x["kinds"] == ["circular"]][:5]:
+        t = copy.deepcopy(s)
+        t["kinds"] = ["ok"]
+        n_t += 1
+        if _work(t) is None:
+            raise MachineryError("binding self-test failed: a tampered outcome class was not reported")
+    rep.notes["tampered_predictions_rejected"] = n_t
     bads = pmap(_work, scns, chunk=256)
     for scn, bad in zip(scns, bads):
         rep.replayed += 1
